@@ -5,6 +5,7 @@ import (
 	"strings"
 	"unicode"
 
+	"github.com/robertkrimen/otto/file"
 	"github.com/robertkrimen/otto/parser"
 )
 
@@ -43,7 +44,8 @@ func builtinNewFunctionNative(rt *runtime, argumentList []Value) *object {
 	// FIXME
 	function, err := parser.ParseFunction(parameterList, body)
 	rt.parseThrow(err) // Will panic/throw appropriately
-	cmpl := compiler{}
+	// The function was parsed as "(" + its source + ")": that text is the file its positions refer to.
+	cmpl := compiler{file: file.NewFile("", "("+function.Source+")", 1)}
 	cmplFunction := cmpl.parseExpression(function)
 
 	return rt.newNodeFunction(cmplFunction.(*nodeFunctionLiteral), rt.globalStash)
